@@ -74,7 +74,12 @@ def run_cases(ctx, n_models, n_states, gen_opts=None, seed_offset=0):
       # velocity clause of the property: single joints anchored at the link origin
       opts.update(stack=(1, 1), anchor_offset=False)
     xml, meta = modelgen.gen_model(rng, **opts)
-    sysm = mjcf.loads(xml)
+    try:
+      sysm = mjcf.loads(xml)
+    except Exception as e:  # a generator model (inside the quantifier) must load
+      spec_failures.append(dict(key=f'exception:{type(e).__name__}', what=f'mjcf.loads raises {type(e).__name__}: {e} on a generator model',
+                                xml=xml, q=[], qd=[], link=0))
+      continue
     fwd = jax.jit(lambda q, qd, sysm=sysm: kinematics.forward(sysm, q, qd))
     hist[meta['link_types']] = hist.get(meta['link_types'], 0) + 1
     st = wire.sys_tokens(sysm)
@@ -212,7 +217,12 @@ def replay(ctx, rp):
   from brax.io import mjcf
   if rp.get('kind') != 'failing-input':
     return True, f'replay names broken obligations only: {rp.get("broken")}'
-  sysm = mjcf.loads(rp['xml'])
+  try:
+    sysm = mjcf.loads(rp['xml'])
+  except Exception as e:
+    return False, f'mjcf.loads raises {type(e).__name__}: {e}'
+  if rp['key'].startswith('exception'):
+    return True, 'model loads'
   q, qd = np.array(rp['q']), np.array(rp['qd'])
   x, xd = kinematics.forward(sysm, jp.asarray(q), jp.asarray(qd))
   mpos, mquat, mvel = mj_reference(sysm, q, qd)
